@@ -55,6 +55,9 @@ CLAIMED = {
     "C18": ("Lean 4 proof that the tree-cursor loop of find_errors equals the declarative 'outermost flagged nodes in document order' for every tree (mutual induction over rose trees, with fuel sufficiency), first = head; + differential comparison incl. both displays and the owning variants moved across threads",
             "Kernel-checked for every tree: the cursor machine (flags, goto_first_child / next_sibling / parent, did_visit_children) returns exactly the ERROR/MISSING nodes not inside another reported node, in document order, within 2|t|+1 iterations (C18_walk_eq_outermost); first-error mode returns the head of that list (C18_first_is_head); children of a reported node are skipped; an error-free tree yields none; the plain display starts with path:line:column and the kind. Tie: Python sources with 0-6 injected faults: ParseError::all/first vs an independent recursive walk over Node::children and vs the model; display / display_pretty text equal to the model's (Excerpt incl. column clamping); into_all / into_first queried on another thread; tree-sitter's has_error contract re-checked. The soundness of the unsafe Send/Sync impls and the lifetime transmute is memory safety and outside the model (the cross-thread run only exercises it).",
             "DESIGN.md section 7, C18"),
+    "C19": ("Lean 4 theorems on the decision logic of the CLI (exit status iff, output selection, quiet only affects the pretty graph, no graph on failure, --global parsing) + runs of the real binary against the library called in-process",
+            "Kernel-checked over all option sets and library results (the decision table is finite and proved by exhaustive case analysis): exit status 0 iff options well-formed, file loads, no syntax errors or they are allowed, execution succeeds; on failure nothing is printed and no file written; --json prints the JSON and with --output also writes the file; --quiet only suppresses the pretty graph; a --global without '=' or with a repeated name fails; the global's name is the text before the first '='. clap, the grammar loader, process plumbing and file I/O are not modelled (partial). Tie: the real binary built from /repo with --features cli runs offline (staged grammar directory) on generated pairs incl. rejected files, failing executions and faulty sources x option sets; exit status, kind of stdout and presence of the output file vs the model; stdout / file contents vs the library's pretty_print / JSON (syntax-node ids normalised).",
+            "DESIGN.md section 7, C19"),
 }
 
 NOT_YET = {}
